@@ -118,4 +118,20 @@ def stitch_hole_chain(m):
     return False
 
 
-PREDS = {f.__name__: f for f in [mls_even_shared_endpoint, sweep_inexact_crossing, gc_all_members_empty, monotone_tjunction_panic, stitch_hole_chain]}
+def convex_star(m):
+    """is_convex answers true for a closed ring whose consecutive triples all turn the same way but which winds around more
+    than once (a star / pentagram): the implementation tests local turns only, the documentation says 'encloses a convex set'."""
+    c = m.get("case", {})
+    if c.get("op") != "extra_seq" or m.get("sub") != "convexity":
+        return False
+    cs = c["cs"]
+    n = len(cs) - 1
+    t = []
+    for i in range(n):
+        a, b, d = cs[i], cs[(i + 1) % n], cs[(i + 2) % n]
+        t.append((b[0] - a[0]) * (d[1] - a[1]) - (b[1] - a[1]) * (d[0] - a[0]))
+    same = all(x >= 0 for x in t) or all(x <= 0 for x in t)
+    return same and "Ok((true" in m.get("detail", {}).get("got", "") and m.get("detail", {}).get("want", "").startswith("(false")
+
+
+PREDS = {f.__name__: f for f in [convex_star, mls_even_shared_endpoint, sweep_inexact_crossing, gc_all_members_empty, monotone_tjunction_panic, stitch_hole_chain]}
